@@ -20,6 +20,9 @@ pub struct Cfg {
     /// multiplex_files of the single queue (0 = default 1): with 2 both objects are in transmission at once
     #[serde(default)]
     pub multiplex: u32,
+    /// the first object comes from a stream (no MD5 pass) instead of a buffer
+    #[serde(default)]
+    pub stream: bool,
 }
 
 pub const TICK: u64 = 500;
@@ -36,6 +39,10 @@ pub fn catalog(c: &Cfg) -> Vec<ObjSpec> {
         _ => None,
     };
     o0.immediate_stop = if c.immediate_stop { Some(true) } else { None };
+    if c.stream {
+        o0.source = Source::Stream(3);
+        o0.md5 = false;
+    }
     let mut o1 = ObjSpec::simple(6, 2);
     o1.oti = Some(OtiSpec::new(Scheme::NoCode, 4, 2, 0, true));
     o1.count = 2;
@@ -382,13 +389,16 @@ pub fn configs(thorough: bool) -> Vec<Cfg> {
                     if !thorough && ((count == 3 && carousel != 0) || (!full_fdt && (count != 2 || immediate_stop))) {
                         continue;
                     }
-                    v.push(Cfg { count, carousel, immediate_stop, full_fdt, multiplex: 1 });
+                    v.push(Cfg { count, carousel, immediate_stop, full_fdt, multiplex: 1, stream: false });
+                    if (count >= 2 || carousel != 0) && !immediate_stop && full_fdt {
+                        v.push(Cfg { count, carousel, immediate_stop, full_fdt, multiplex: 1, stream: true });
+                    }
                     if count == 1 && !immediate_stop && carousel != 0 {
                         // zero carousel periods: at a fixed instant the reads must still terminate
-                        v.push(Cfg { count, carousel: carousel + 2, immediate_stop, full_fdt, multiplex: 1 });
+                        v.push(Cfg { count, carousel: carousel + 2, immediate_stop, full_fdt, multiplex: 1, stream: false });
                     }
                     if count == 2 && (thorough || carousel != 2) {
-                        v.push(Cfg { count, carousel, immediate_stop, full_fdt, multiplex: 2 });
+                        v.push(Cfg { count, carousel, immediate_stop, full_fdt, multiplex: 2, stream: false });
                     }
                 }
             }
